@@ -11,11 +11,13 @@
     BaseException, ...); it is universally quantified: single, repeated and permanent faults.
     Proved: after any schedule with any faults no Pending entry is left and the cache
     invariant holds, so every value returned later (and every value returned by an undisturbed
-    computation) denotes the same interp value.  That a later request does return (rather
-    than raise again or exhaust fuel) is a termination property, covered by the harness
+    computation) denotes the same interp value.  [C11_later_requests_terminate]: for stratified
+    programs (both shipped algorithms) the runs and every later request, under any fault plan,
+    end with a value or an exception when given fuel >= fuel_bound - never OutOfFuel.  That a
+    later request returns a VALUE (rather than raising again) is covered by the harness
     k_faults only. *)
 From Coq Require Import String List ZArith Bool Arith.
-From PV.DSL Require Import Syntax Values Target Compile Interp Exec Laws Sound CompileProps Main Faults Regular Examples PropsLemmas.
+From PV.DSL Require Import Syntax Values Target Compile Interp Exec Laws Sound CompileProps Main Faults Regular Examples Stratified Terminate PropsLemmas.
 From PV.Gen Require Import Algorithms_gen.
 Import ListNotations.
 Open Scope string_scope.
@@ -88,3 +90,28 @@ Example C11_recursion_example :
   fst (run z_ops alg (compile alg) (z_world no_faults) 10 (init_state alg (z_world no_faults) 0) (TTab, "S", (0, 0, [1])))
   = Raise RuntimeError.
 Proof. vm_compute. reflexivity. Qed.
+
+(** after any faults the computation is still usable: for a stratified program the faulty runs
+    and every later request terminate (value or exception), the premise about OutOfFuel of
+    [C11_exn_safe] is discharged *)
+Theorem C11_later_requests_terminate :
+  forall (V : Type) (O : vops V) (alg : algorithm) (W : xworld V),
+  stratified alg = true -> fn_total W -> start_inputs_ok alg W ->
+  forall (fp : nat -> option exn) fuel c rs os s1,
+    fuel_ok alg fuel rs ->
+    run_all O alg (compile alg) (with_faults W fp) fuel (init_state alg W c) rs = (os, s1) ->
+    Forall (fun o => o <> OutOfFuel) os /\
+    forall fuel' tb name ix r s2,
+      fuel_bound alg ix <= fuel' ->
+      run O alg (compile alg) (with_faults W fp) fuel' s1 (tb, name, ix) = (r, s2) ->
+      r <> OutOfFuel.
+Proof. exact L_C11_later_requests_terminate. Qed.
+Print Assumptions C11_later_requests_terminate.
+
+Example C11_later_requests_terminate_example :
+  stratified nonhermitian_alg = true /\ start_inputs_ok nonhermitian_alg (z_world no_faults)
+  /\ fuel_bound nonhermitian_alg (0, 0, [2]) <= 200.
+Proof.
+  split; [vm_compute; reflexivity|]. split; [apply nh_start_inputs; reflexivity|].
+  apply Nat.leb_le. vm_compute. reflexivity.
+Qed.
